@@ -301,11 +301,19 @@ orc_executor_emulate (OrcExecutor *ex)
       OrcCodeVariable *var = code->vars + insn->src_args[k];
       if (opcode->src_size[k] == 0) continue;
 
+      /* loadoffX counts its offset in elements.  With an x2/x4 prefix the
+       * emulation function walks lanes, 2 or 4 to an element: the offset has
+       * to be scaled like everything else, or lane l of element i is taken
+       * from the middle of another element */
+      const int lane_scale = (k == 1 && opcode->src_size[2] == 0 &&
+          (opcode->flags & ORC_STATIC_OPCODE_LOAD) &&
+          (opcode->flags & ORC_STATIC_OPCODE_SCALAR)) ? opcode_ex[j].shift : 0;
+
       if (var->vartype == ORC_VAR_TYPE_CONST) {
         opcode_ex[j].src_ptrs[k] = tmpspace[insn->src_args[k]];
         /* FIXME hack */
         load_constant (tmpspace[insn->src_args[k]], 8,
-            var->value.i);
+            var->value.i * (1 << lane_scale));
       } else if (var->vartype == ORC_VAR_TYPE_PARAM) {
         opcode_ex[j].src_ptrs[k] = tmpspace[insn->src_args[k]];
         /* FIXME hack */
@@ -316,7 +324,7 @@ orc_executor_emulate (OrcExecutor *ex)
                (ORC_N_PARAMS)])<<32));
         } else {
           load_constant (tmpspace[insn->src_args[k]], 8,
-              ex->params[insn->src_args[k]]);
+              ex->params[insn->src_args[k]] * (1 << lane_scale));
         }
       } else if (var->vartype == ORC_VAR_TYPE_TEMP) {
         opcode_ex[j].src_ptrs[k] = tmpspace[insn->src_args[k]];
